@@ -21,6 +21,9 @@ A = lambda n: ('a', n)
 
 ATOMS0 = ['int', 'bool', 'str', 'float', 'bytes', 'none', 'object', 'any', 'K', 'K2', 'N', 'T', 'TB', 'TC', 'P', 'E',
           'G', 'GL', 'complex', 'NoneType', 'IE', 'NL', 'TL', 'TU', 'DupA', 'DupB', 'TSi', 'TSs']
+# hint kinds beartype reduces to shallower checks (C01 / C02 / C03 / C09 / C10 only; not part of the is_subhint matrix of C19)
+ATOMS_EXTRA = ['Hashable', 'Sized', 'Callable_', 'LStr', 'SupportsInt', 'AnyStr', 'PatS', 'MatS', 'TD', 'TDo', 'NT', 'DC', 'GenI', 'CtxI', 'PathS',
+               'AL', 'ALgi', 'ALr', 'Type_', 'Tuple_', 'List_', 'Dict_', 'TupU', 'TupUU', 'InitI', 'FinI']
 LITS0 = [('lit', '1'), ('lit', "'a'"), ('lit', 'True'), ('lit', 'None'), ('lit', 'E.A'), ('lit', '1', "'a'", 'None'),
          ('lit', '1', 'True'), ('lit', "b'x'", '0'),
          # every order of equal-valued members of different types (bool/int/IntEnum), and plain reorderings
@@ -33,8 +36,8 @@ CORE_C1 = ['list', 'Sequence', 'abc.MutableSequence', 'set', 'FrozenSet', 'abc.S
 CORE_C2 = ['dict', 'Mapping', 'abc.MutableMapping', 'DefaultDict', 'OrderedDict', 'ChainMap', 'ItemsView']
 
 
-def level0():
-    out = [A(n) for n in ATOMS0] + list(LITS0)
+def level0(extra=True):
+    out = [A(n) for n in ATOMS0] + ([A(n) for n in ATOMS_EXTRA] if extra else []) + list(LITS0)
     u = []
     pairs = [('int', 'str'), ('str', 'int'), ('int', 'none'), ('K', 'none'), ('str', 'bytes'), ('int', 'float'),
              ('P', 'int'), ('K', 'Other'), ('bool', 'str'), ('T', 'int'), ('any', 'int'), ('object', 'str'),
@@ -145,7 +148,7 @@ def level1(families='all'):
     c1 = CORE_C1 if families == 'core' else list(HS.C1)
     c2 = CORE_C2 if families == 'core' else list(HS.C2)
     sfu = set(same_family_unions())
-    L0 = [t for t in level0() if t not in sfu]
+    L0 = [t for t in level0() if t not in sfu and t not in (A('FinI'), A('InitI'))]       # Final / InitVar are root-only
     R0 = reps0()
     out = containers_over(L0, c1, c2, KEYS0 if families == 'all' else KEYS0[:3], R0)
     out += tuples_fixed(R0[:8] if families == 'all' else R0[:4], ('b', 't') if families == 'all' else ('b',))
